@@ -104,7 +104,7 @@ def first_diff(a, b, path=""):
 
 
 # ================================================================================================ InputFile
-IF_KINDS = {"set": 16, "set_all": 6, "validate": 6, "validate_data": 5, "ws_close": 2, "gc": 2}
+IF_KINDS = {"set": 16, "set_all": 6, "validate": 6, "validate_data": 5, "ws_close": 2, "gc": 2, "ws_mutate": 3}
 SWITCH_KEYS = ["i_opt", "dat", "pg", "dep", "g1", "g2", "one_a", "one_b"]
 
 
@@ -213,6 +213,31 @@ class InputFileScenario(BaseScenario):
         return ui, custom
 
     @staticmethod
+    def mutate_ws(sim, env, r):
+        ws = env["ws"]
+        opened = False
+        if not ws._geoh5:  # pylint: disable=protected-access
+            ws.open(mode="r+")
+            opened = True
+        try:
+            if "a_new" not in env or r.random() < 0.6:
+                n = len([k for k in env if k.startswith("a_new")])
+                new = env["A"].add_data({f"a_new{n}": {"values": np.arange(5.0) + n}})
+                env[f"a_new{n}" if n else "a_new"] = new
+                env["a_new"] = new
+                sim.probe("parent_gained_child")
+                return "ok:gain"
+            gone = env.pop("a_new")
+            env["a_gone"] = gone.uid
+            ws.remove_entity(gone)
+            del gone
+            sim.probe("parent_lost_child")
+            return "ok:loss"
+        finally:
+            if opened:
+                ws.close()
+
+    @staticmethod
     def domain(key, env, r):
         """Candidate values for a parameter: valid and invalid ones mixed."""
         pools = {
@@ -222,7 +247,8 @@ class InputFileScenario(BaseScenario):
             "flag": [True, False, "yes", None, 1],
             "choice": ["a", "b", "c", "z", 3, None],
             "obj": [env["A"], env["B"], env["A"].uid, env["B"].uid, env["ghost"], "not-a-uuid", 5, None, env["C"]],
-            "dat": [env["a1"], env["a2"], env["b1"], env["a1"].uid, env["b1"].uid, None, env["ghost"], "zzz", 4.0],
+            "dat": [env["a1"], env["a2"], env["b1"], env["a1"].uid, env["b1"].uid, None, env["ghost"], "zzz", 4.0]
+            + ([env["a_new"], env["a_new"].uid, env["a_new"]] if "a_new" in env else []) + ([env["a_gone"], env["a_gone"]] if "a_gone" in env else []),
             "pg": [env["pgA"], env["pgV"], env["pgB"], env["pgA"].uid, None, env["a1"]],
             "dv": [2.5, 3, env["a1"], env["b1"], env["a2"].uid, "str", None],
             "dep": [4.5, None, "q", 3],
@@ -291,6 +317,9 @@ class InputFileScenario(BaseScenario):
                             env["ws"].close()
                             sim.fault("ev:ws_close")
                             outcome = "ok"
+                        elif kind == "ws_mutate":
+                            # the world the forms refer to changes between validation calls: object A gains a data set, or loses one
+                            outcome = self.mutate_ws(sim, env, r)
                         else:
                             if not env["ws"]._geoh5:  # pylint: disable=protected-access
                                 sim.probe("ws_closed_validation")
@@ -426,6 +455,25 @@ class InputFileScenario(BaseScenario):
             ver_t = ver_v if ver_v is not None else ver_a     # nothing fresh to compare with: only the rejection check below applies
         if "obj" in changed:
             sim.probe("parent_changed")
+        # reference model for the one rule that reads the world: membership of the referenced parent object.  Both the aged and
+        # the fresh object would share a process-wide cache inside a validator; the live tree does not.
+        if kind in ("set", "validate") and key in ("dat", "dv", "pg") and "obj" in aged.ui_json and kind == "set":
+            from uuid import UUID
+
+            from geoh5py.groups import PropertyGroup
+            from geoh5py.shared import Entity
+
+            val_uid = value.uid if isinstance(value, (Entity, PropertyGroup)) else value if isinstance(value, UUID) else None
+            parent = data_now.get("obj") if ver_v is not None else None
+            if isinstance(parent, UUID):
+                parent = None
+            if val_uid is not None and isinstance(parent, Entity) and env["ws"]._geoh5:  # pylint: disable=protected-access
+                members = {c.uid for c in parent.children} | {pg.uid for pg in (getattr(parent, "property_groups", None) or [])}
+                sim.oracle("membership_model")
+                if val_uid in members and ver_a[0] == "AssociationValidationError":
+                    raise Violation("C15", "member_refused", f"{what}: refused as not belonging to {leaf(parent)}, whose children include it", {"api": kind, "key": key})
+                if val_uid not in members and ver_a[0] == "accept" and key != "pg":
+                    raise Violation("C15", "non_member_accepted", f"{what}: accepted although {leaf(parent)} has no such child", {"api": kind, "key": key})
         # a plain form whose current value is None declares no type (a fresh object falls back to str, the aged one
         # remembers the type of the value it was built with): type verdicts on such a key are not comparable
         if typeless and "TypeValidationError" in (ver_a[0], ver_t[0]) and (ver_a[0] == "accept") != (ver_t[0] == "accept"):
